@@ -49,6 +49,26 @@ DEFS = {"definitions": {"int": {"type": "integer"}, "str": {"type": "string"}}}
 # accepted by the draft 3/4 metaschemas, rejected by draft 6/7 (boolean exclusiveMinimum)
 S_D4ONLY = {"properties": {"a": {"type": "integer"}, "c": {"minimum": 3, "exclusiveMinimum": True}}}
 S_INVALID = {"type": 12}
+# the root carries an id keyword and the references point into the schema itself, in three forms:
+# fragment only, relative to the own id, the own id spelt out.  Which keyword is *the* id depends
+# on the selected class (`id` for drafts 3/4, `$id` from draft 6 on); under the other classes the
+# keyword means nothing and the relative reference is relative to nothing.  The id is a file: URI
+# of a directory that does not exist: wherever the library goes looking for it, it fails at once
+# and without the network.
+OWN_ID = "file:///jsv-c19-no-such-directory/s.json"
+
+
+def own_id_schema(keyword, dialect=None):
+    schema = {keyword: OWN_ID,
+              "definitions": {"int": {"type": "integer"}, "str": {"type": "string"}, "max5": {"maximum": 5}},
+              "properties": {"a": {"$ref": "#/definitions/int"}, "b": {"$ref": "s.json#/definitions/str"},
+                             "c": {"$ref": OWN_ID + "#/definitions/max5"}, "d": {"const": 1}, "e": {"divisibleBy": 2}}}
+    if dialect is not None:
+        schema["$schema"] = dialect
+    return schema
+
+
+DRAFT4_ID = "http://json-schema.org/draft-04/schema#"
 
 # ---- text shapes: what the characters of a file (or of stdin) look like around a
 # complete JSON value.  "x-": the json module does not load the text, "w-": it does
@@ -81,12 +101,16 @@ def shaped(kind, first, second, closer, n):
 
 # ---- schema-file states
 BASE_SCHEMA = ["valid", "missing", "notjson", "invalid", "valid-ref", "d4only"]
+# own-id: `id`; own-did: `$id`; own-id-d4: `id` and a draft-04 `$schema` (the only state that declares a dialect)
+OWN_ID_SCHEMA = ["own-id", "own-did", "own-id-d4"]
 # a file whose whole content is a JSON value that is not a non-empty object: the boolean
 # schemas (schemas from draft 6 on, rejected by the draft 3/4 metaschemas), the empty
 # schema, and two values that are a schema under no draft
 VALUE_SCHEMA = ["true", "false", "obj0", "number", "null"]
-SCHEMA_STATES = BASE_SCHEMA + VALUE_SCHEMA + SHAPES
+SCHEMA_STATES = BASE_SCHEMA + OWN_ID_SCHEMA + VALUE_SCHEMA + SHAPES
 SCHEMA_VALUE = {"invalid": S_INVALID, "valid": S_VALID, "valid-ref": S_REF, "d4only": S_D4ONLY,
+                "own-id": own_id_schema("id"), "own-did": own_id_schema("$id"),
+                "own-id-d4": own_id_schema("id", DRAFT4_ID),
                 "true": True, "false": False, "obj0": {}, "number": 12, "null": None}
 
 
@@ -134,7 +158,14 @@ def inst_text(state, p):
     return json.dumps(inst_value(state, p))
 
 
-OUTFMT = [("plain", MARK), ("plain", None), ("pretty", None)]
+# --error-format: the marker, not given, and formats that look odd or falsy; what has to be
+# written is always the same: the format applied to each error, nothing else
+ODD_FORMATS = [("", "empty"), ("0", "0"), (" ", "space"), ("no placeholder\n", "no-placeholder"),
+               ("[{error.instance}]", "instance-only")]
+FORMAT_LABEL = dict(ODD_FORMATS)
+MAIN_OUT = 3        # the first three get the full product, the odd formats a stated part of it
+OUTFMT = [("plain", MARK), ("plain", None), ("pretty", None)] + [("plain", f) for f, _ in ODD_FORMATS]
+ODD_OUT = list(range(MAIN_OUT, len(OUTFMT)))
 VALIDATORS = [None, "Draft4Validator", "Draft7Validator", "jsonschema.validators.Draft3Validator"]
 BASES = [False, True]
 NAMED = {"Draft4Validator": jsonschema.Draft4Validator, "Draft7Validator": jsonschema.Draft7Validator,
@@ -143,13 +174,16 @@ NAMED = {"Draft4Validator": jsonschema.Draft4Validator, "Draft7Validator": jsons
 
 def selector(name):
     """The class the command line has to use for a loaded schema value: the named one,
-    else the one for the schema's $schema — no schema of the alphabet has one, hence the
-    latest draft; for a value that is neither an object nor a boolean the library's own
-    validator_for is asked (it may have no answer: the model's 'library raises')."""
+    else the one for the schema's $schema — draft 4 where the alphabet declares it, and
+    where it declares none the latest draft; for a value that is neither an object nor a
+    boolean the library's own validator_for is asked (it may have no answer: the model's
+    'library raises')."""
     if name is not None:
         return lambda value: NAMED[name]
 
     def select(value):
+        if isinstance(value, dict) and value.get("$schema") == DRAFT4_ID:
+            return jsonschema.Draft4Validator
         if isinstance(value, (dict, bool)):
             return jsonschema.Draft7Validator
         return jsonschema.validators.validator_for(value)
@@ -247,7 +281,7 @@ def argv_of(case, ws, absolute):
             argv += ["-i", path(inst_token(s, p))]
     if case["out"] != "plain":
         argv += ["--output", case["out"]]
-    if case["fmt"]:
+    if case["fmt"] is not None:
         argv += ["--error-format", case["fmt"]]
     if case["validator"]:
         argv += ["--validator", case["validator"]]
@@ -466,7 +500,8 @@ def shrink(case, kind, ws, ctx):
     return cur, loose
 
 
-SIMPLER_SCHEMA = {"valid-ref": ["valid"], "d4only": ["valid"], "true": ["valid"], "false": ["valid", "true"],
+SIMPLER_SCHEMA = {"own-id": ["valid"], "own-did": ["valid"], "own-id-d4": ["valid", "own-id"],
+                  "valid-ref": ["valid"], "d4only": ["valid"], "true": ["valid"], "false": ["valid", "true"],
                   "obj0": ["valid", "true"], "w-lead": ["valid"], "w-tail": ["valid"],
                   "number": ["invalid"], "null": ["invalid", "number"],
                   "x-empty": ["notjson"], "x-ws": ["notjson", "x-empty"], "x-trail": ["notjson"],
@@ -492,7 +527,7 @@ def signature(case, kind, exp):
     if case["base_uri"]:
         extra += "|base-uri"
     if (case["out"], case["fmt"]) != ("plain", MARK):
-        extra += "|" + case["out"] + ("" if case["fmt"] is None else "+format")
+        extra += "|" + case["out"] + ("" if case["fmt"] is None else "+format=" + FORMAT_LABEL.get(case["fmt"], "other"))
     if isinstance(case["list"], dict):
         extra += "|stdin"
     return "C19|%s|%s|fold=%s%s" % (case["mode"], kind, model.coarse(exp), extra)
@@ -516,13 +551,12 @@ def schema_outcome(state, validator):
 
 
 def accepting():
-    """schema state index -> the (output, validator, base-uri) index triples under which the model
-    runs the instance fold, output-major (so that each third of the list is one output mode)."""
+    """schema state index -> the --validator option indices under which the model runs the instance fold."""
     acc = {}
     for j, st in enumerate(SCHEMA_STATES):
         vs = [v for v in range(len(VALIDATORS)) if schema_outcome(st, VALIDATORS[v]) == "accepted"]
         if vs:
-            acc[j] = [(o, v, b) for o in range(len(OUTFMT)) for v in vs for b in range(len(BASES))]
+            acc[j] = vs
     return acc
 
 
@@ -554,6 +588,21 @@ def alphabet_check():
         if schema_outcome(st, v) != w:
             raise RuntimeError("schema state %s under --validator %s: the library says %s, the alphabet assumes %s"
                                % (st, v, schema_outcome(st, v), w))
+    # the id keyword of the selected class makes the schema's references into itself resolvable; the
+    # other class's keyword does not (the relative reference is then relative to nothing)
+
+    class NoFiles(object):
+        memo, base_uri = {}, None
+    d4, d3 = "Draft4Validator", "jsonschema.validators.Draft3Validator"
+    for st, v, w in (("own-id", d4, "errs"), ("own-id", d3, "errs"), ("own-id", None, "crash"),
+                     ("own-id", "Draft7Validator", "crash"), ("own-did", None, "errs"), ("own-did", "Draft7Validator", "errs"),
+                     ("own-did", d4, "crash"), ("own-id-d4", None, "errs"), ("own-id-d4", d4, "errs"),
+                     ("own-id-d4", "Draft7Validator", "crash")):
+        exp = expected(dict(schema=st, list=["inv3"], validator=v, base_uri=False), NoFiles)
+        got = exp["items"][0][0] if exp["items"] else model.coarse(exp)
+        if got != w:
+            raise RuntimeError("schema state %s under --validator %s: the library gives %s on an invalid instance, "
+                               "the alphabet assumes %s" % (st, v, got, w))
     tokens = [schema_token(st) for st in SCHEMA_STATES] + [inst_token(st, p) for st in INST_STATES
                                                            for p in range(MAXPOS)] + ["<stdin>"]
     for x in tokens:
@@ -569,7 +618,7 @@ def covering_rows(rows_of_lists, schema_idx):
     rows = []
     for n, l in enumerate(rows_of_lists):
         for m, j in enumerate(schema_idx):
-            rows.append((l, j, (n + m) % 3, (n // 3 + m) % 4, (n // 12 + m // 3 + m) % 2))
+            rows.append((l, j, (n + m) % len(OUTFMT), (n // 3 + m) % 4, (n // 12 + m // 3 + m) % 2))
     covered = set()
 
     def pairs(r):
@@ -591,37 +640,41 @@ def covering_rows(rows_of_lists, schema_idx):
     return rows, filled
 
 
-def rotated(lists, acc, schemas, per_list):
+def rotated(lists, acc, schemas, per_list, outs=None):
     """Every list with every schema of `schemas` (per_list = 'all') or with one of them in turn
-    (per_list = 'one'), each time under one accepting factor triple: the output mode advances with the
-    list's content and the schema, and among the triples of that output mode the one whose (position,
-    state, schema) combinations have been used least so far is taken (first such on ties) — deterministic."""
+    (per_list = 'one'), each time under one output mode of `outs` and one accepting (validator, base-uri)
+    pair: the output mode advances with the list's content and the schema, and the pair whose (position,
+    state, schema, output mode) combinations have been used least so far is taken (first such on ties)
+    — deterministic."""
+    outs = list(range(len(OUTFMT))) if outs is None else outs
     rows, used = [], {}
     for n, l in enumerate(lists):
         js = list(enumerate(schemas)) if per_list == "all" else [(n % len(schemas), schemas[n % len(schemas)])]
         ks = [INST_STATES.index(k) for k in l]
         for m, j in js:
-            a = acc[j]
-            third = len(a) // len(OUTFMT)       # a is output-major
-            o = (sum(ks) + m + (n if per_list == "one" else 0)) % len(OUTFMT)
-            best = min(range(o * third, (o + 1) * third),
-                       key=lambda i: (sum(used.get((pos, k, j, i), 0) for pos, k in enumerate(ks)), i))
+            o = outs[(sum(ks) + m + (n if per_list == "one" else 0)) % len(outs)]
+            best = min(((v, b) for v in acc[j] for b in range(len(BASES))),
+                       key=lambda t: (sum(used.get((pos, k, j, o) + t, 0) for pos, k in enumerate(ks)), t))
             for pos, k in enumerate(ks):
-                used[(pos, k, j, best)] = used.get((pos, k, j, best), 0) + 1
-            rows.append((l, j) + a[best])
+                used[(pos, k, j, o) + best] = used.get((pos, k, j, o) + best, 0) + 1
+            rows.append((l, j, o) + best)
     return rows
 
 
-def rotation_coverage(rows, acc, schemas):
-    """Verified, not assumed: every (position, state at that position, schema, accepting factor triple)
-    occurs, and every list is run under all three output modes."""
-    seen, outs = set(), {}
+def rotation_coverage(rows, acc, schemas, outs, pairs=True):
+    """Verified, not assumed: every (position, state at that position, schema, output mode[, accepting
+    (validator, base-uri) pair]) occurs, and every list is run under every output mode of `outs`."""
+    seen, met, slots = set(), {}, set()
     for r in rows:
         for pos, k in enumerate(r[0]):
-            seen.add((pos, k, r[1], r[2:]))
-        outs.setdefault(r[0], set()).add(r[2])
-    want = set((pos, k, j, t) for pos in range(3) for k in INST_STATES for j in schemas for t in acc[j])
-    return want <= seen, all(len(v) == len(OUTFMT) for v in outs.values())
+            slots.add((pos, k))
+            seen.add((pos, k, r[1]) + (r[2:] if pairs else r[2:3]))
+        met.setdefault(r[0], set()).add(r[2])
+    want = set((pos, k, j, o) + ((v, b) if pairs else ())
+               for pos, k in slots for j in schemas for o in outs
+               for v in (acc[j] if pairs else [0]) for b in (range(len(BASES)) if pairs else [0]))
+    return (want <= seen and all(len(v) == len(outs) for v in met.values())
+            and len(set(rows)) == len(rows))
 
 
 def subprocess_rows(thorough, acc):
@@ -639,15 +692,16 @@ def subprocess_rows(thorough, acc):
         pairs_shape = [as_row(l) for l in all_lists(2, None, [], 2) if has_shape(l)]
         rows = [(l, s, o, v, b) for lists, schemas in ((single, foldable), (single_base, stops))
                 for l in lists for s in schemas
-                for o in range(len(OUTFMT)) for v in range(len(VALIDATORS)) for b in range(len(BASES))]
+                for o in range(MAIN_OUT) for v in range(len(VALIDATORS)) for b in range(len(BASES))]
         filled = 0
-        for lists, schemas in ((single_shape, stops), (pairs_base, every), (pairs_shape, foldable), (triples_base, base)):
+        for lists, schemas in ((single, every), (pairs_base, every), (pairs_shape, foldable), (triples_base, base)):
             more, f = covering_rows(lists, schemas)
             rows += more
             filled += f
-        text = ("%s: the full product for one file / stdin over the whole alphabet x 'fold runs' and for one file / stdin "
-                "over the base alphabet x 'stops'; strength-2 covering arrays over the five factors (every (list, schema) "
-                "pair, other factors rotated, %d rows added to complete them) for one file / stdin text shape x 'stops', "
+        text = ("%s: the full product (main output modes) for one file / stdin over the whole alphabet x 'fold runs' and "
+                "for one file / stdin over the base alphabet x 'stops'; strength-2 covering arrays over the five factors, "
+                "all output modes (every (list, schema) pair, other factors rotated, %d rows added to complete them) for "
+                "one file / stdin over the whole alphabet x every schema state, "
                 "the pairs over the base alphabet x every schema state, the pairs containing a text shape x 'fold runs', "
                 "the triples over the base alphabet x base schema states" % (what, filled))
     else:
@@ -659,9 +713,10 @@ def subprocess_rows(thorough, acc):
         for n, l in enumerate(single_shape):
             for t in range(2):
                 m = 2 * n + t
-                rows.append((l, stops[m % len(stops)], m % 3, (m // 3) % 4, (m // 2) % 2))
+                rows.append((l, stops[m % len(stops)], m % len(OUTFMT), (m // 3) % 4, (m // 2) % 2))
         rows += rotated(triples_base, acc, foldable, "one")
-        text = ("%s: strength-2 covering arrays over the five factors (every (list, schema) pair, other factors rotated; "
+        text = ("%s: strength-2 covering arrays over the five factors, all output modes (every (list, schema) pair, other "
+                "factors rotated; "
                 "coverage of all factor-value pairs verified, %d rows added to complete them) for one file / stdin "
                 "over the whole alphabet x 'fold runs', one file / stdin over the base alphabet x 'stops', the pairs over "
                 "the base alphabet x base schema states; every file / stdin text shape on two of the 'stops' states; "
@@ -682,25 +737,39 @@ def plan(ctx):
         raise RuntimeError("subprocess imports jsonschema from %r, not from %s" % (out.stdout, ctx.repo))
     units = []
     for s in range(len(SCHEMA_STATES)):
-        for o in range(len(OUTFMT)):
+        for o in range(MAIN_OUT):
             for v in range(len(VALIDATORS)):
                 for b in range(len(BASES)):
                     units.append(("inproc", full_len, base_len, s, o, v, b))
     per_unit = len(unit_lists(full_len, base_len))
-    inproc_cfgs = per_unit * len(SCHEMA_STATES) * len(OUTFMT) * len(VALIDATORS) * len(BASES)
+    inproc_cfgs = per_unit * len(SCHEMA_STATES) * MAIN_OUT * len(VALIDATORS) * len(BASES)
+    # the odd error formats: full product with the short lists ...
+    odd_lists = [as_row(l) for l in all_lists(full_len - 1)]
+    for s in range(len(SCHEMA_STATES)):
+        for o in ODD_OUT:
+            units.append(("inproc-rows", tuple((l, s, o, v, b) for l in odd_lists for v in range(len(VALIDATORS))
+                                               for b in range(len(BASES)))))
+    odd_cfgs = len(odd_lists) * len(SCHEMA_STATES) * len(ODD_OUT) * len(VALIDATORS) * len(BASES)
+    # ... and the longer lists x every schema state on which the fold runs, formats rotated
+    if ctx.thorough:
+        odd_long = [as_row(l) for l in all_lists(3, None, [], 3)]
+    else:
+        odd_long = [as_row(l) for l in all_lists(2, None, [], 2) + all_lists(3, BASE_INST, [], 3)]
+    odd_rows = rotated(odd_long, acc, foldable, "all", ODD_OUT)
+    if not rotation_coverage(odd_rows, acc, foldable, ODD_OUT, pairs=False):
+        raise RuntimeError("rotation of the odd formats does not cover what the rule states")
     rot_rows = []
     if not ctx.thorough:
         # length 3 with at least one text shape: every list x every schema state on which the fold runs
         triples_shape = [as_row(l) for l in all_lists(3, None, [], 3) if has_shape(l)]
         rot_rows = rotated(triples_shape, acc, foldable, "all")
-        ok_tuples, ok_outs = rotation_coverage(rot_rows, acc, foldable)
-        if not (ok_tuples and ok_outs and len(set(rot_rows)) == len(rot_rows)):
+        if not rotation_coverage(rot_rows, acc, foldable, range(len(OUTFMT))):
             raise RuntimeError("rotation does not cover what the rule states")
-        for j in foldable:
-            mine = [r for r in rot_rows if r[1] == j]
-            n = (len(mine) + 599) // 600
-            for c in range(n):
-                units.append(("inproc-rows", tuple(mine[c::n])))
+    for j in foldable:
+        mine = [r for r in rot_rows + odd_rows if r[1] == j]
+        n = (len(mine) + 599) // 600
+        for c in range(n):
+            units.append(("inproc-rows", tuple(mine[c::n])))
     rows, sub_text = subprocess_rows(ctx.thorough, acc)
     chunk = 48 if ctx.thorough else 16
     # interleave so that every chunk mixes cheap and expensive rows
@@ -713,26 +782,42 @@ def plan(ctx):
               "json.loads in the model" % ("byte order mark + value, " if BOM_OK else ""))
     return {
         "units": units,
-        "rule": ("configuration = schema-file state x instance list x {plain+marker format, plain, pretty} x --validator "
+        "rule": ("configuration = schema-file state x instance list x output mode x --validator "
                  "{absent, Draft4Validator, Draft7Validator, jsonschema.validators.Draft3Validator} x --base-uri "
-                 "{absent, file:// directory}. Schema-file states: base {valid, missing, not-JSON, invalid schema, valid "
-                 "with relative file references, accepted by drafts 3/4 only} + whole-file values {true, false, {}, 12, "
-                 "null} + the valid schema in each of the %d %s. Instance states: base {valid, invalid-1-error, "
+                 "{absent, file:// directory}. Output modes: main {plain + marker --error-format, plain without "
+                 "--error-format, pretty} + plain with an odd --error-format {the empty string, '0', ' ', a format "
+                 "without placeholder, a format using only {error.instance}}; with any given format stderr must be exactly "
+                 "that format applied to every error of the library (plus the diagnostics). Schema-file states: base "
+                 "{valid, missing, not-JSON, invalid schema, valid with relative file references, accepted by drafts 3/4 "
+                 "only} + root carrying an id keyword with references into itself in three forms (fragment only, relative "
+                 "to the own id, the own id spelt out) {`id`, `$id`, `id` + draft-04 `$schema`} (which keyword counts is "
+                 "the selected class's business: the library's validator of that class is the reference) + whole-file "
+                 "values {true, false, {}, 12, null} + the valid schema in each of the %d %s. Instance states: base "
+                 "{valid, invalid-1-error, "
                  "invalid-3-errors, missing, not-JSON (truncated), null} + the same %d text shapes; stdin: {valid, "
                  "invalid-3-errors, not-JSON, null} + the text shapes. In-process (cli.run, real files), full product of "
-                 "the five factors with: every list of length 1..%d over the whole instance alphabet (%d states), every "
+                 "the five factors (main output modes) with: every list of length 1..%d over the whole instance alphabet (%d states), every "
                  "stdin state, every list of length %d..%d over the base alphabet. %s"
                  "Through real `python -m jsonschema` processes (cwd = scratch dir, relative paths): %s. "
                  "Configurations are distinct by construction (products / verified duplicate-free row sets); the two "
                  "execution modes are counted separately. Non-trivial = the schema is accepted, so the instance fold "
                  "actually runs (at least one transition)" % (
                      len(SHAPES), shapes, len(SHAPES), full_len, len(INST_STATES), full_len + 1, base_len,
-                     "" if ctx.thorough else
-                     ("Lists of length 3 containing a text shape (%d): each with each of the %d schema states the model "
-                      "accepts under some --validator, under one accepting (output, validator, base-uri) triple chosen "
-                      "by rotation (%d rows; verified: every (position, instance state, schema state, accepting triple) "
-                      "occurs and every list meets all three output modes). " % (
-                          len(rot_rows) // len(foldable), len(foldable), len(rot_rows))),
+                     ("The odd error formats: full product of the five factors with every list of length 0..%d over the "
+                      "whole alphabet and every stdin state (%d configurations); every %s (%d lists) with each of the %d "
+                      "schema states the model accepts under some --validator ('fold runs'), under one odd format and one "
+                      "accepting (validator, base-uri) pair chosen by rotation (%d rows; verified: every (position, instance "
+                      "state, schema state, odd format) occurs and every list meets all %d odd formats). " % (
+                          full_len - 1, odd_cfgs,
+                          "list of length 3 over the whole alphabet" if ctx.thorough else
+                          "list of length 2 over the whole alphabet and of length 3 over the base alphabet",
+                          len(odd_long), len(foldable), len(odd_rows), len(ODD_OUT)))
+                     + ("" if ctx.thorough else
+                        ("Lists of length 3 containing a text shape (%d): each with each of the 'fold runs' schema states "
+                         "under one output mode (all %d, odd formats included) and one accepting (validator, base-uri) pair "
+                         "chosen by rotation (%d rows; verified: every (position, instance state, schema state, output mode, "
+                         "accepting pair) occurs and every list meets all %d output modes). " % (
+                             len(rot_rows) // len(foldable), len(OUTFMT), len(rot_rows), len(OUTFMT)))),
                      sub_text)),
         "bounds": {"tier": ctx.tier, "max_list_length_whole_alphabet": 3, "max_list_length_full_product_whole_alphabet": full_len,
                    "max_list_length_base_alphabet": base_len,
@@ -740,9 +825,11 @@ def plan(ctx):
                    "text_shapes": list(SHAPES), "byte_order_mark_encodable": BOM_OK,
                    "instance_lists_per_factor_combination": per_unit,
                    "schema_states": len(SCHEMA_STATES), "schema_states_fold_runs": [SCHEMA_STATES[j] for j in foldable],
-                   "output_modes": len(OUTFMT),
+                   "output_modes": len(OUTFMT), "odd_error_formats": [f for f, _ in ODD_FORMATS],
+                   "inprocess_odd_format_product": odd_cfgs, "inprocess_odd_format_rotated_rows": len(odd_rows),
                    "validator_options": len(VALIDATORS), "base_uri_options": len(BASES),
-                   "inprocess_configurations": inproc_cfgs + len(rot_rows), "inprocess_rotated_rows": len(rot_rows),
+                   "inprocess_configurations": inproc_cfgs + odd_cfgs + len(odd_rows) + len(rot_rows),
+                   "inprocess_rotated_rows": len(rot_rows),
                    "subprocess_configurations": len(rows),
                    "fold_state_space": "status so far in {0, non-zero} x position 0..%d, plus 'schema failed'" % base_len},
         "assumptions": [
